@@ -110,7 +110,7 @@ pub fn format_with(src: &str, opt: PrettyOptions) -> Result<String, String> {
     thread_local! {
         static HELPER: std::cell::RefCell<Option<Helper>> = const { std::cell::RefCell::new(None) };
     }
-    let budget = std::env::var("ZYFMT_BUDGET_S").ok().and_then(|s| s.parse().ok()).unwrap_or(10u64);
+    let budget = std::env::var("ZYFMT_BUDGET_S").ok().and_then(|s| s.parse().ok()).unwrap_or(30u64);
     HELPER.with(|h| {
         let mut h = h.borrow_mut();
         if h.is_none() {
@@ -673,7 +673,20 @@ pub fn eval_case(src: &str, opt: &Opt, origin: &str, tally: &mut Tally, findings
             tally.hit("timeout");
             SLOW.lock().unwrap().insert(origin.split(' ').next().unwrap_or("").to_string());
             let depth = nesting_depth(src);
-            let cause = if depth >= 9 { "deep-nesting" } else { "other" };
+            // narrow = the width in force is at most 50 columns (option or in-source directive)
+            let narrow = opt.width <= 50 || {
+                let mut found = false;
+                let mut rest = src;
+                while let Some(i) = rest.find("width(") {
+                    let digits: String = rest[i + 6..].chars().take_while(|c| c.is_ascii_digit()).collect();
+                    if digits.parse::<usize>().is_ok_and(|w| w <= 50) {
+                        found = true;
+                    }
+                    rest = &rest[i + 6..];
+                }
+                found
+            };
+            let cause = if depth >= 9 || (depth >= 5 && narrow) { "deep-nesting" } else { "other" };
             report("C12", "fmt-timeout", format!("cause={cause}; delimiter nesting depth {depth}; {e}"), Value::Null);
             return None;
         }
